@@ -5,8 +5,8 @@ EXTENDS Naturals, Sequences, FiniteSets, TLC, Json
 
  A program is the nesting of with-blocks: Block = Seq(<<kind, label, Block>>), kind in ref | alt | next,
  labels in preorder; condition c_label is a unary predicate of the one variable x; the base condition is
- TRUE; conclusion ids: 0 = base, label + 1 = the branch with that label.  The world is complete: one
- element per truth vector of the K conditions, so one world decides all data.
+ condition K (a further unary predicate: some elements fail it); conclusion ids: 0 = base, label + 1 = the branch with that label.  The world is complete: one
+ element per truth vector of the K + 1 conditions, so one world decides all data.
  Layer R (Expected): the lexical reading - inside the block of node N, refinement(c) is an exception to N,
           alternative(c) an else-if sibling of N (in written order), next_rule(c) fires in addition.
  Layer I (ImplFire): the node graph that rule.py's refinement() / alternative_or_next() build by re-parenting
@@ -25,7 +25,7 @@ Blk(k, n) == IF n = 0 THEN { <<>> }
              ELSE UNION { { <<<<kind, k, sub>>>> \o rest : sub \in Blk(k+1, first-1), rest \in Blk(k+first, n-first) }
                           : first \in 1..n, kind \in {"ref","alt","next"} }
 Programs == UNION { Blk(0, n) : n \in 0..MaxBranches }
-Elems == [0..(K-1) -> BOOLEAN]        \* complete world: one element per truth vector
+Elems == [0..K -> BOOLEAN]        \* complete world: one element per truth vector; e[K] = truth of the base condition
 \* ---------- R: lexical semantics.  conclusion ids: 0 = base, i+1 = branch labelled i.  base condition is TRUE.
 RECURSIVE FireBlock(_,_,_), EvalNode(_,_,_), FirstRef(_,_,_), FirstAlt(_,_,_), Nexts(_,_,_)
 No == [ok |-> FALSE, cs |-> {}]
@@ -42,7 +42,9 @@ FireBlock(own, ch, e) == LET r == FirstRef(ch, 1, e) IN IF r.ok THEN r.cs ELSE {
 EvalNode(i, ch, e) == LET main == IF e[i] THEN Yes(FireBlock(i+1, ch, e)) ELSE FirstAlt(ch, 1, e)
                           nx == Nexts(ch, 1, e)
                       IN IF ~main.ok /\ nx = {} THEN No ELSE Yes(main.cs \cup nx)
-Expected(prog, e) == FireBlock(0, prog, e) \cup Nexts(prog, 1, e)
+\* the rule itself is the root node: its own condition is the base condition (e[K]), its conclusion id is 0
+Expected(prog, e) == LET main == IF e[K] THEN Yes(FireBlock(0, prog, e)) ELSE FirstAlt(prog, 1, e)
+                     IN main.cs \cup Nexts(prog, 1, e)
 RECURSIVE Ambig(_,_)
 Ambig(ch, e) == \/ Cardinality({ i \in DOMAIN ch : ch[i][1] = "ref" /\ EvalNode(ch[i][2], ch[i][3], e).ok }) > 1
                 \/ \E i \in DOMAIN ch : Ambig(ch[i][3], e)
@@ -87,7 +89,7 @@ Graph(prog) == Build(NewG, 1, prog)
 
 \* ---------- I: evaluation for one element e.  State S = [flag: node -> BOOLEAN (is_false), seenT, seenF: sets of nodes whose concluded_before[True/False] already holds x=e,
 \*                                                       dyn: node -> set (dynamic _conclusion_ of selectors), le, re: node -> BOOLEAN (left/right_evaluated)]
-Truth(G, id, e) == IF G.nodes[id].c = K THEN TRUE ELSE e[G.nodes[id].c]
+Truth(G, id, e) == e[G.nodes[id].c]
 Visible(G, S, id) == IF G.nodes[id].kind = "cond" THEN G.nodes[id].concl ELSE S.dyn[id]
 Upd(G, S, n, cs) == \* update_conclusion
    IF cs = {} THEN S
@@ -183,18 +185,18 @@ ImplFire(prog, e) == LET G == Graph(prog)
                      IN UNION { o.cs : o \in { R.outs[i] : i \in DOMAIN R.outs } \cap { oo \in { R.outs[i] : i \in DOMAIN R.outs } : ~oo.f } }
 VARIABLE prog
 \* shapes on which the implementation is expected to meet the reference: at most one refinement per block and no
-\* refinement below a refinement, no refinement after an alternative of the same block, at most one alternative per
+\* refinement inside the block of a refinement or of an alternative (reachable once the base condition can fail), no refinement after an alternative of the same block, at most one alternative per
 \* block, no next_rule (see the findings)
 RECURSIVE Plain(_, _)
 Plain(ch, underRef) ==
   /\ Cardinality({ i \in DOMAIN ch : ch[i][1] = "ref" }) <= (IF underRef THEN 0 ELSE 1)
   /\ Cardinality({ i \in DOMAIN ch : ch[i][1] = "alt" }) <= 1
   /\ \A i, j \in DOMAIN ch : i < j /\ ch[i][1] = "alt" => ch[j][1] # "ref"      \* a refinement written after an alternative is lost
-  /\ \A i \in DOMAIN ch : ch[i][1] # "next" /\ Plain(ch[i][3], underRef \/ ch[i][1] = "ref")
+  /\ \A i \in DOMAIN ch : ch[i][1] # "next" /\ Plain(ch[i][3], TRUE)
 Init == prog \in (IF OnlyShapes = "plain" THEN { p \in Programs : Plain(p, FALSE) } ELSE Programs)
 Next == FALSE /\ UNCHANGED prog
 Agree == \A e \in Elems : Ambig(prog, e) \/ ImplFire(prog, e) = Expected(prog, e)
-ElemKey(e) == [i \in 0..(K-1) |-> IF e[i] THEN 1 ELSE 0]
+ElemKey(e) == [i \in 0..K |-> IF e[i] THEN 1 ELSE 0]
 Emit == PrintT(ToJson([prog |-> prog, agree |-> Agree, k |-> K,
                        cases |-> { [e |-> ElemKey(e), exp |-> Expected(prog, e), impl |-> ImplFire(prog, e), ambig |-> Ambig(prog, e)] : e \in Elems }]))
 ====
